@@ -1629,6 +1629,11 @@ let err_kind_name = function
     (String ((Ascii (false, false, true, false, false, true, true, false)),
     EmptyString)))))))))))))))))))))))))))))))))))))))))))))))))))))))))))
 
+(** val all_err_kind : err_kind list **)
+
+let all_err_kind =
+  ECommon :: (EConstantAlreadyExist :: (EConstantNotFound :: (EWrongLetType :: (EWrongExpressionType :: (ETypeAlreadyExist :: (EFunctionAlreadyExist :: (EValueNotFound :: (EValueNotStruct :: (EValueNotStructField :: (EValueIsNotMutable :: (EFunctionNotFound :: (EFunctionParameterTypeWrong :: (EReturnNotFound :: (EReturnAlreadyCalled :: (EIfElseDuplicated :: (ETypeNotFound :: (EWrongReturnType :: (EConditionExpressionWrongType :: (EConditionIsEmpty :: (EConditionExpressionNotSupported :: (EForbiddenCodeAfterReturnDeprecated :: (EForbiddenCodeAfterContinueDeprecated :: (EForbiddenCodeAfterBreakDeprecated :: (EFunctionArgumentNameDuplicated :: []))))))))))))))))))))))))
+
 (** val max_prio : n **)
 
 let max_prio =
